@@ -1590,3 +1590,70 @@ V('c07-twin-fetch-one-write', 'C07', 'R7.5', RESPSPEC,
         writer.write(b'\\r\\n')''', '''        data_list.write(writer)
         crlf = b'\\r\\n'
         writer.write(crlf)''', expect='silent')
+
+# ---------------------------------------------------------------- C08
+V('c08-revert-validator', 'C08', 'R8.1', LAYOUT,
+  '''        parts = name.split(delimiter)
+        for part in parts:
+            if not part or part in ('.', '..') \\
+                    or os.sep in part or '\\0' in part:
+                raise NotSupportedError('Invalid mailbox name.')
+        return parts''', '''        return name.split(delimiter)''')
+V('c08-validator-no-dotdot', 'C08', 'R8.1', LAYOUT,
+  "if not part or part in ('.', '..') \\", "if not part or part in ('.', ) \\")
+V('c08-validator-allows-empty', 'C08', 'R8.1', LAYOUT,
+  "if not part or part in ('.', '..') \\", "if part in ('.', '..') \\")
+V('c08-bypass-split', 'C08', 'R8.1', LAYOUT,
+  '''    def get_path(self, name: str, delimiter: str) -> str:
+        parts = self._split(name, delimiter)
+        return self._get_path(parts)''',
+  '''    def get_path(self, name: str, delimiter: str) -> str:
+        parts = name.split(delimiter)
+        return self._get_path(parts)''')
+V('c08-mailboxset-direct-join', 'C08', 'R8.1', MAILDIRMBX,
+  '''            path = self._layout.get_path(name, self.delimiter)
+            async with UidList.with_init(path) as uidl:
+                mailbox_id = ObjectId(uidl.global_uid)
+            mbx = MailboxData(mailbox_id, maildir, path)''',
+  '''            path = os.path.join(self._path, name)
+            async with UidList.with_init(path) as uidl:
+                mailbox_id = ObjectId(uidl.global_uid)
+            mbx = MailboxData(mailbox_id, maildir, path)''')
+V('c08-validator-after-use', 'C08', 'R8.1', LAYOUT,
+  '''        parts = name.split(delimiter)
+        for part in parts:
+            if not part or part in ('.', '..') \\
+                    or os.sep in part or '\\0' in part:
+                raise NotSupportedError('Invalid mailbox name.')
+        return parts''', '''        parts = name.split(delimiter)
+        if len(parts) > 64:
+            for part in parts:
+                if not part or part in ('.', '..') \\
+                        or os.sep in part or '\\0' in part:
+                    raise NotSupportedError('Invalid mailbox name.')
+        return parts''')
+V('c08-cache-shared', 'C08', 'R8.2', DICTINIT,
+  'mailbox_set, filter_set = config.set_cache.get(identity, (None, None))',
+  "mailbox_set, filter_set = config.set_cache.get('shared', (None, None))")
+V('c08-delete-inbox', 'C08', 'R8.3', STATE,
+  '''        if cmd.mailbox == 'INBOX':
+            return ResponseNo(cmd.tag, b'Cannot delete INBOX.'), None
+''', '')
+V('c08-maildir-rename-inbox', 'C08', 'R8.3', MAILDIRMBX,
+  '''        if before == 'INBOX':
+            raise NotSupportedError()  # TODO
+        else:
+            try:''', '''        if True:
+            try:''')
+# twin
+V('c08-twin-helper-validator', 'C08', 'R8.1', LAYOUT,
+  '''        parts = name.split(delimiter)
+        for part in parts:
+            if not part or part in ('.', '..') \\
+                    or os.sep in part or '\\0' in part:
+                raise NotSupportedError('Invalid mailbox name.')
+        return parts''', '''        parts = name.split(delimiter)
+        for part in parts:
+            if part == '' or part == '.' or part == '..' or '\\0' in part:
+                raise NotSupportedError('Invalid mailbox name.')
+        return parts''', expect='silent')
